@@ -34,7 +34,7 @@ fn main() {
         let spec: AppSpec = serde_json::from_value(if doc.get("case").is_some() { doc["case"]["spec"].clone() } else { doc }).expect("spec");
         let lane = lane(&std::env::var("PX_LANE").unwrap_or_else(|_| "manual".into()));
         match round::verdict_alone(&lane, &spec) {
-            Ok(v) => println!("signature: {}\n{}", v.signature(), v.brief()),
+            Ok(v) => println!("signature: {}\n{}\n{}", v.signature(), v.brief(), if v.panicked { v.panic_message() } else { String::new() }),
             Err(e) => println!("infrastructure: {e}"),
         }
         return;
@@ -58,6 +58,9 @@ fn main() {
     match prop.as_str() {
         "C01" | "C02" | "C03" | "C04" | "C05" | "C06" => pipeline_family(chk),
         "C07" => routing_family(chk),
+        "C08" => planted_check(chk),
+        "C09" => verdict_check(chk),
+        "C10" => determinism_check(chk),
         _ => {
             eprintln!("pxe2e: unknown property {prop}");
             std::process::exit(2);
@@ -770,4 +773,558 @@ fn replay_routing(chk: &mut Check, path: &std::path::Path) {
         std::process::exit(2);
     }
     evaluate_routing(chk, &specs, &out, solo);
+}
+
+// ------------------------------------------------------------------------------------------
+// C08: exactly one planted rule violation => rejected with a diagnostic, no SDK produced
+// ------------------------------------------------------------------------------------------
+
+fn draw_abiding(chk: &Check, sub: &str, n: usize) -> Vec<AppSpec> {
+    let mut runner = chk.settings.runner(sub, n as u32);
+    let strat = genr::genome();
+    (0..n).map(|_| genr::build_abiding(&strat.new_tree(&mut runner).unwrap().current()).spec).collect()
+}
+
+fn planted_check(mut chk: Check) -> ! {
+    let tier = chk.tier();
+    chk.ev.rule = "a rule-abiding generated application + exactly one planted violation out of 14 documented compile-time rules (missing constructor at any dependency depth, cycle, singleton -> request-scoped, singleton registered in two blueprints, runtime singleton not Send+Sync, never-clone singleton by value, &mut singleton / transient / clone-if-necessary request-scoped, &mut constructor input, clone-if-necessary without Clone, observer needing a fallible constructor (directly or transitively), overlapping routes, PathParams field not in template) at a generated site; the application crate still compiles. Oracle: pavexc exits non-zero with >=1 ERROR diagnostic, does not crash, and leaves the output crate untouched. non-trivial = the planted site sits at dependency depth >=2, or in a nested blueprint, or in a middleware/observer rather than a handler; distinct = distinct planted spec".into();
+    let (bases, per_base, lanes) = match tier {
+        Tier::Quick => (8usize, 14usize, 3usize),
+        Tier::Thorough => (120, 28, 6),
+    };
+    if let Some(p) = chk.settings.replay.clone() {
+        let doc: Value = serde_json::from_str(&std::fs::read_to_string(&p).unwrap_or_default()).unwrap_or(Value::Null);
+        let spec: AppSpec = serde_json::from_value(doc["case"]["spec"].clone()).unwrap_or_else(|_| {
+            eprintln!("no spec in {}", p.display());
+            std::process::exit(2)
+        });
+        let lane = lane("replay");
+        eval_planted(&mut chk, &lane, &[(spec.clone(), spec.note.clone(), true)]);
+        chk.finish();
+    }
+    let bases = chk.settings.extra.get("cases").and_then(|c| c.parse().ok()).unwrap_or(bases);
+    // recorded planted applications (shrunk reproductions of repaired defects) run first
+    {
+        let mut recorded = vec![];
+        for f in chk.committed_replays() {
+            let doc: Value = serde_json::from_str(&std::fs::read_to_string(&f).unwrap_or_default()).unwrap_or(Value::Null);
+            if let Ok(s) = serde_json::from_value::<AppSpec>(doc["case"]["spec"].clone()) {
+                let note = s.note.trim_start_matches("planted ").to_string();
+                recorded.push((s, note, true));
+            }
+        }
+        if !recorded.is_empty() {
+            let lane = lane("l0");
+            for c in recorded.chunks(8) {
+                eval_planted(&mut chk, &lane, c);
+            }
+        }
+    }
+    let base_specs = draw_abiding(&chk, "planted", bases);
+    // plant: every rule once (or twice) per base, at a site chosen by the seed
+    let mut cases: Vec<(AppSpec, String, bool)> = vec![];
+    for (bi, b) in base_specs.iter().enumerate() {
+        for j in 0..per_base {
+            let rule = j % genr::RULES.len();
+            let raw = ((vcommon::fnv(&format!("{}-{bi}-{j}", chk.settings.seed)) >> 7) & 0xffff) as u16;
+            match genr::plant(b, rule, raw) {
+                Some(p) => cases.push((p.spec, p.what, p.nontrivial)),
+                None => chk.ev.label(&format!("not-applicable:{}", genr::RULES[rule])),
+            }
+        }
+    }
+    let chunks: Vec<Vec<(AppSpec, String, bool)>> = cases.chunks(8).map(|c| c.to_vec()).collect();
+    let results: Vec<Check> = vec![];
+    let _ = results;
+    // evaluate chunk by chunk, lanes in parallel (each lane owns a workspace)
+    let chunk_groups: Vec<Vec<&Vec<(AppSpec, String, bool)>>> = (0..lanes).map(|l| chunks.iter().enumerate().filter(|(i, _)| i % lanes == l).map(|(_, c)| c).collect()).collect();
+    let outcomes: Vec<Vec<(usize, Result<Vec<(round::PavexcVerdict, bool)>, String>)>> = std::thread::scope(|s| {
+        let hs: Vec<_> = chunk_groups
+            .iter()
+            .enumerate()
+            .map(|(l, group)| {
+                s.spawn(move || {
+                    let lane = lane(&format!("l{l}"));
+                    group.iter().enumerate().map(|(gi, chunk)| (gi * lanes + l, planted_verdicts(&lane, chunk))).collect::<Vec<_>>()
+                })
+            })
+            .collect();
+        hs.into_iter().map(|h| h.join().unwrap()).collect()
+    });
+    let mut flat: Vec<(usize, Result<Vec<(round::PavexcVerdict, bool)>, String>)> = outcomes.into_iter().flatten().collect();
+    flat.sort_by_key(|(i, _)| *i);
+    for (ci, res) in flat {
+        match res {
+            Err(e) => {
+                // a planted application that does not even compile is a generator bug, not a verdict
+                eprintln!("INFRA property=C08: planted application crate does not compile: {e}");
+                chk.ev.write();
+                std::process::exit(2);
+            }
+            Ok(verdicts) => judge_planted(&mut chk, &chunks[ci], &verdicts),
+        }
+    }
+    chk.finish()
+}
+
+fn planted_verdicts(lane: &engine::Lane, chunk: &[(AppSpec, String, bool)]) -> Result<Vec<(round::PavexcVerdict, bool)>, String> {
+    let specs: Vec<AppSpec> = chunk.iter().map(|c| c.0.clone()).collect();
+    round::prepare(lane, &specs)?;
+    Ok(std::thread::scope(|s| {
+        let hs: Vec<_> = (0..specs.len())
+            .map(|k| {
+                s.spawn(move || {
+                    let before = round::tree_hash(&lane.ws().join(format!("ind/sdk_{k}")));
+                    let v = round::verdict_k(lane, k, k, false, &[], None);
+                    let after = round::tree_hash(&lane.ws().join(format!("ind/sdk_{k}")));
+                    (v, before == after)
+                })
+            })
+            .collect();
+        hs.into_iter().map(|h| h.join().unwrap()).collect()
+    }))
+}
+
+fn eval_planted(chk: &mut Check, lane: &engine::Lane, chunk: &[(AppSpec, String, bool)]) {
+    match planted_verdicts(lane, chunk) {
+        Ok(v) => judge_planted(chk, chunk, &v),
+        Err(e) => {
+            eprintln!("INFRA: {e}");
+            std::process::exit(2);
+        }
+    }
+}
+
+fn judge_planted(chk: &mut Check, chunk: &[(AppSpec, String, bool)], verdicts: &[(round::PavexcVerdict, bool)]) {
+    for ((spec, what, nontrivial), (v, untouched)) in chunk.iter().zip(verdicts) {
+        chk.ev.evaluations += 1;
+        let rule = what.split(':').next().unwrap_or("?").to_string();
+        let ok = v.code == Some(1) && v.n_errors >= 1 && !v.panicked && *untouched;
+        if !ok {
+            let sig = if v.accepted() {
+                format!("accepted:{rule}")
+            } else if v.panicked {
+                format!("crash-instead-of-diagnostic:{}", v.signature())
+            } else if !untouched {
+                format!("output-modified:{rule}")
+            } else {
+                format!("no-error-diagnostic:{rule}")
+            };
+            save_violation(chk, "planted", &sig, &format!("planted violation: {what}\nexpected: exit 1 with an ERROR diagnostic and an untouched output crate\nobserved: {}", v.brief()), spec, json!({"planted": what}));
+            continue;
+        }
+        chk.ev.label(&format!("rejected:{rule}"));
+        {
+            // which diagnostic came first (digits normalised): shows whether the planted rule is the one reported
+            let first: String = v.stderr.lines().skip_while(|l| !l.starts_with("ERROR:")).nth(1).unwrap_or("").trim().trim_start_matches('×').trim().chars().map(|c| if c.is_ascii_digit() { '#' } else { c }).take(72).collect();
+            chk.ev.label(&format!("first-diagnostic:{}:{first}", rule.split('-').next().unwrap_or("")));
+        }
+        if *nontrivial {
+            chk.ev.nontrivial.insert(fnv(&serde_json::to_string(spec).unwrap()));
+            if chk.ev.samples.len() < 4 {
+                let first = v.stderr.lines().skip_while(|l| !l.starts_with("ERROR:")).nth(1).unwrap_or("").trim().to_string();
+                chk.ev.sample(json!({"planted": what, "diagnostic": first, "app": spec_summary(spec)}));
+            }
+        }
+    }
+}
+
+// ------------------------------------------------------------------------------------------
+// C09: always a verdict (exit 0 with an SDK, or exit 1 with a diagnostic), never a crash;
+// a failing run leaves a previously generated SDK byte-for-byte untouched
+// ------------------------------------------------------------------------------------------
+
+fn chaos_of(base: &AppSpec, seed: u64) -> AppSpec {
+    let mut spec = base.clone();
+    let mut s = seed;
+    let mut next = || {
+        s = s.wrapping_mul(6364136223846793005).wrapping_add(1442695040888963407);
+        (s >> 33) as usize
+    };
+    let mut notes = vec![];
+    let n_plant = 1 + next() % 3;
+    for _ in 0..n_plant {
+        if let Some(p) = genr::plant(&spec, next(), next() as u16) {
+            spec = p.spec;
+            notes.push(p.what);
+        }
+    }
+    // structural oddities (still type-correct Rust)
+    match next() % 7 {
+        0 => {
+            // duplicate a registration
+            if !spec.bp.is_empty() {
+                let i = next() % spec.bp.len();
+                let r = spec.bp[i].clone();
+                spec.bp.push(r);
+                notes.push("a registration is duplicated".into());
+            }
+        }
+        1 => {
+            // very deep nesting around everything
+            let mut inner = std::mem::take(&mut spec.bp);
+            for d in 0..(5 + next() % 30) {
+                inner = vec![Reg::Nest { prefix: if d % 2 == 0 { Some(format!("/d{d}")) } else { None }, domain: None, bp: inner }];
+            }
+            spec.bp = inner;
+            notes.push("everything sits in a deep chain of nested blueprints".into());
+        }
+        2 => {
+            spec.bp.push(Reg::Nest { prefix: Some(["no-slash", "/trailing/", "/{unclosed", "//", "/{a}/{a}"][next() % 5].into()), domain: None, bp: vec![] });
+            notes.push("a nested blueprint with a malformed prefix".into());
+        }
+        3 => {
+            spec.bp.push(Reg::Nest { prefix: None, domain: Some(["not a domain!", "{*a}.{*b}.x", "x..y", "", "{fn}.x.io"][next() % 5].into()), bp: vec![] });
+            notes.push("a nested blueprint with a malformed domain guard".into());
+        }
+        4 => {
+            // only constructors, no routes at all
+            fn strip(regs: &mut Vec<Reg>, comps: &[CompSpec]) {
+                regs.retain(|r| !matches!(r, Reg::Comp { idx } if comps[*idx].kind == CompKind::Handler));
+                for r in regs.iter_mut() {
+                    if let Reg::Nest { bp, .. } = r {
+                        strip(bp, comps);
+                    }
+                }
+            }
+            let comps = spec.comps.clone();
+            strip(&mut spec.bp, &comps);
+            notes.push("no routes are registered".into());
+        }
+        5 => {
+            // domain guard on one nested blueprint only (mixed guarded / unguarded routes)
+            for r in spec.bp.iter_mut() {
+                if let Reg::Nest { domain, .. } = r {
+                    *domain = Some("only.here.test".into());
+                    break;
+                }
+            }
+            notes.push("one nested blueprint gets a domain guard, the rest has none".into());
+        }
+        _ => {}
+    }
+    spec.note = format!("chaos: {}", notes.join("; "));
+    spec
+}
+
+fn verdict_check(mut chk: Check) -> ! {
+    let tier = chk.tier();
+    chk.ev.rule = "pairs (rule-abiding base application, chaos variant = 1-3 planted rule violations + a structural oddity: duplicated registration, 5-35 levels of nesting, malformed prefix/domain, no routes, mixed guarded/unguarded routes) compiled into the same output crate: first the base (must be accepted), then the variant. Oracle for every compiler run: terminates within the watchdog, exit status 0 or 1, no panic/abort, exit 0 => Cargo.toml and src/lib.rs exist, exit 1 => at least one ERROR diagnostic; when the variant fails, the SDK generated for the base is byte-for-byte untouched. non-trivial = the variant was rejected (atomicity exercised) or the blueprint has >=25 registrations; distinct = distinct variant spec".into();
+    chk.ev.assume("user crates always compile (variants that do not are discarded and counted); hangs are turned into exit 2 by a 400 s watchdog, never into a violation");
+    let (n_pairs, lanes) = match tier {
+        Tier::Quick => (24usize, 3usize),
+        Tier::Thorough => (600, 6),
+    };
+    let n_pairs = chk.settings.extra.get("cases").and_then(|c| c.parse().ok()).unwrap_or(n_pairs);
+    let replay_specs: Vec<AppSpec> = {
+        let mut v = vec![];
+        let files: Vec<std::path::PathBuf> = match chk.settings.replay.clone() {
+            Some(p) => vec![p],
+            None => chk.committed_replays(),
+        };
+        for f in files {
+            let doc: Value = serde_json::from_str(&std::fs::read_to_string(&f).unwrap_or_default()).unwrap_or(Value::Null);
+            if let Ok(s) = serde_json::from_value::<AppSpec>(doc["case"]["spec"].clone()) {
+                v.push(s);
+            }
+        }
+        v
+    };
+    let only_replay = chk.settings.replay.is_some();
+    let bases = if only_replay { vec![] } else { draw_abiding(&chk, "chaos", n_pairs) };
+    let mut pairs: Vec<(AppSpec, AppSpec)> = bases.iter().enumerate().map(|(i, b)| (b.clone(), chaos_of(b, chk.settings.sub_seed("chaos") ^ (i as u64 * 7919)))).collect();
+    // recorded cases: the recorded spec is the variant, a trivial application is the base
+    for s in &replay_specs {
+        let mut trivial = AppSpec::default();
+        trivial.comps.push(CompSpec { kind: CompKind::Handler, inputs: vec![], fallible: None, is_async: false, route: Some(RouteSpec { methods: vec!["GET".into()], path: "/".into(), path_param_fields: vec![] }) });
+        trivial.bp.push(Reg::Comp { idx: 0 });
+        trivial.note = "trivial base".into();
+        pairs.push((trivial, s.clone()));
+    }
+    let chunks: Vec<Vec<(AppSpec, AppSpec)>> = pairs.chunks(4).map(|c| c.to_vec()).collect();
+    let groups: Vec<Vec<usize>> = (0..lanes).map(|l| (0..chunks.len()).filter(|i| i % lanes == l).collect()).collect();
+    type PairOut = (round::PavexcVerdict, Option<round::PavexcVerdict>, bool, bool);
+    let outs: Vec<(usize, Result<Vec<PairOut>, String>)> = std::thread::scope(|s| {
+        let chunks = &chunks;
+        let hs: Vec<_> = groups
+            .iter()
+            .enumerate()
+            .map(|(l, g)| {
+                s.spawn(move || {
+                    let lane = lane(&format!("l{l}"));
+                    g.iter()
+                        .map(|ci| {
+                            let chunk = &chunks[*ci];
+                            let specs: Vec<AppSpec> = chunk.iter().flat_map(|(b, v)| [b.clone(), v.clone()]).collect();
+                            let r = match round::prepare(&lane, &specs) {
+                                Err(e) => Err(e),
+                                Ok(()) => Ok(std::thread::scope(|s2| {
+                                    let lane = &lane;
+                                    let hs: Vec<_> = (0..chunk.len())
+                                        .map(|p| {
+                                            s2.spawn(move || {
+                                                let dir = lane.ws().join(format!("ind/sdk_{p}"));
+                                                let vb = round::verdict_k(lane, 2 * p, p, false, &[], None);
+                                                if !vb.accepted() {
+                                                    return (vb, None, true, true);
+                                                }
+                                                let files_ok = dir.join("Cargo.toml").exists() && std::fs::read_to_string(dir.join("src/lib.rs")).is_ok_and(|s| !s.is_empty());
+                                                let before = round::tree_hash(&dir);
+                                                let vv = round::verdict_k(lane, 2 * p + 1, p, false, &[], None);
+                                                let after = round::tree_hash(&dir);
+                                                (vb, Some(vv), files_ok, before == after)
+                                            })
+                                        })
+                                        .collect();
+                                    hs.into_iter().map(|h| h.join().unwrap()).collect::<Vec<_>>()
+                                })),
+                            };
+                            (*ci, r)
+                        })
+                        .collect::<Vec<_>>()
+                })
+            })
+            .collect();
+        hs.into_iter().flat_map(|h| h.join().unwrap()).collect()
+    });
+    let mut outs = outs;
+    outs.sort_by_key(|(i, _)| *i);
+    for (ci, res) in outs {
+        let chunk = &chunks[ci];
+        let verdicts = match res {
+            Err(e) => {
+                // one of the variants does not compile as Rust: not a compiler verdict; re-run the chunk one by one? (rare) -> count and skip
+                chk.ev.label("chunk-skipped:user-crate-does-not-compile");
+                let _ = e;
+                continue;
+            }
+            Ok(v) => v,
+        };
+        for ((base, variant), (vb, vv, files_ok, untouched)) in chunk.iter().zip(verdicts) {
+            for (which, spec, v) in [("base", base, Some(&vb)), ("variant", variant, vv.as_ref())] {
+                let Some(v) = v else { continue };
+                chk.ev.evaluations += 1;
+                if v.timed_out {
+                    eprintln!("INCONCLUSIVE property=C09: pavexc hit the watchdog on a {which} application");
+                    chk.ev.label("watchdog");
+                    continue;
+                }
+                let sig = v.signature();
+                if v.panicked {
+                    save_violation(&mut chk, "chaos", &sig, &format!("pavexc crashed on a {which} application ({}):\n{}\n{}", spec.note, v.panic_message(), v.brief()), spec, json!({"which": which}));
+                    continue;
+                }
+                let coherent = match v.code {
+                    Some(0) => v.n_errors == 0,
+                    Some(1) => v.n_errors >= 1,
+                    _ => false,
+                };
+                if !coherent {
+                    save_violation(&mut chk, "chaos", &format!("incoherent-verdict:exit{:?}-errors{}", v.code, v.n_errors), &format!("exit status and diagnostics disagree on a {which} application ({}):\n{}", spec.note, v.brief()), spec, json!({"which": which}));
+                    continue;
+                }
+                chk.ev.label(&format!("{which}:{}", if v.accepted() { "accepted" } else { "rejected" }));
+            }
+            if vb.accepted() && !files_ok {
+                save_violation(&mut chk, "chaos", "accepted-without-sdk", "exit 0 but Cargo.toml / src/lib.rs are missing or empty", base, json!({}));
+            }
+            if let Some(vv) = &vv {
+                if !vv.accepted() && !vv.panicked && !untouched {
+                    save_violation(&mut chk, "chaos", "failed-run-modified-sdk", &format!("the compiler failed on the variant ({}) but the SDK generated for the base application was modified", variant.note), variant, json!({"base": base}));
+                }
+                if !vv.accepted() {
+                    chk.ev.label("atomicity-exercised");
+                    chk.ev.nontrivial.insert(fnv(&serde_json::to_string(variant).unwrap()));
+                    if chk.ev.samples.len() < 4 {
+                        chk.ev.sample(json!({"variant": variant.note, "verdict": vv.signature(), "base_sdk_untouched": untouched}));
+                    }
+                } else if count_regs(variant) >= 25 {
+                    chk.ev.nontrivial.insert(fnv(&serde_json::to_string(variant).unwrap()));
+                }
+            }
+        }
+    }
+    chk.finish()
+}
+
+// ------------------------------------------------------------------------------------------
+// C10: determinism, cache independence, idempotence, --check
+// ------------------------------------------------------------------------------------------
+
+fn determinism_check(mut chk: Check) -> ! {
+    let tier = chk.tier();
+    chk.ev.rule = "accepted generated applications (pipeline and routing families) x a history of compiler runs on the same output crate: generate; generate again; --check; delete the output and regenerate in fresh processes with RAYON_NUM_THREADS in {1,2,16}; perturb one byte of lib.rs then --check, then regenerate; (thorough) regenerate with a cold documentation cache and with the cache of another lane. Oracle: Cargo.toml, src/lib.rs and the diagnostics graph are byte-identical across all runs; re-running does not touch mtimes; --check exits 0 iff nothing would change, exits non-zero after the perturbation, and never modifies a file. non-trivial = history with >=4 generating runs on an application with >=3 routes or >=5 constructors; distinct = distinct spec".into();
+    chk.ev.assume("each compiler run is a fresh process (fresh hash seeds); thread interleavings are sampled through RAYON_NUM_THREADS, not enumerated");
+    let (n_apps, lanes) = match tier {
+        Tier::Quick => (18usize, 3usize),
+        Tier::Thorough => (240, 5),
+    };
+    let n_apps = chk.settings.extra.get("cases").and_then(|c| c.parse().ok()).unwrap_or(n_apps);
+    let mut specs = draw_abiding(&chk, "determinism", n_apps * 2 / 3);
+    {
+        let mut runner = chk.settings.runner("determinism-routing", n_apps as u32);
+        let strat = genr::routing_genome(false);
+        for _ in 0..(n_apps - specs.len()) {
+            specs.push(genr::build_routing(&strat.new_tree(&mut runner).unwrap().current(), 0));
+        }
+    }
+    let cold = tier == Tier::Thorough;
+    let groups: Vec<Vec<usize>> = (0..lanes).map(|l| (0..specs.len()).filter(|i| i % lanes == l).collect()).collect();
+    let outs: Vec<(usize, Result<Vec<String>, (String, String)>)> = std::thread::scope(|s| {
+        let specs = &specs;
+        let hs: Vec<_> = groups
+            .iter()
+            .enumerate()
+            .map(|(l, g)| s.spawn(move || {
+                let lane = lane(&format!("l{l}"));
+                let mut out = vec![];
+                // up to 6 applications share one build of the application crate; their histories run side by side
+                for batch in g.chunks(6) {
+                    let batch_specs: Vec<AppSpec> = batch.iter().map(|i| specs[*i].clone()).collect();
+                    if let Err(e) = round::prepare(&lane, &batch_specs) {
+                        out.extend(batch.iter().map(|i| (*i, Err(("infra".to_string(), e.clone())))));
+                        continue;
+                    }
+                    let lane = &lane;
+                    
+                    let res: Vec<_> = std::thread::scope(|s2| {
+                        let hs: Vec<_> = batch.iter().enumerate().map(|(k, i)| s2.spawn(move || (*i, determinism_history(lane, k, cold && k == 0)))).collect();
+                        hs.into_iter().map(|h| h.join().unwrap()).collect()
+                    });
+                    out.extend(res);
+                }
+                out
+            }))
+            .collect();
+        hs.into_iter().flat_map(|h| h.join().unwrap()).collect()
+    });
+    let mut outs = outs;
+    outs.sort_by_key(|(i, _)| *i);
+    for (i, r) in outs {
+        let spec = &specs[i];
+        match r {
+            Ok(labels) => {
+                chk.ev.evaluations += 1;
+                if labels.iter().any(|l| l == "skipped:not-accepted") {
+                    chk.ev.label("skipped:not-accepted");
+                    continue;
+                }
+                let rich = model::routes(spec).len() >= 3 || spec.types.len() >= 5;
+                if rich {
+                    chk.ev.nontrivial.insert(fnv(&serde_json::to_string(spec).unwrap()));
+                    if chk.ev.samples.len() < 3 {
+                        chk.ev.sample(json!({"app": spec_summary(spec), "history": labels}));
+                    }
+                }
+                for l in labels {
+                    chk.ev.label(&l);
+                }
+            }
+            Err((sig, msg)) => {
+                if sig == "infra" {
+                    eprintln!("INFRA property=C10: {msg}");
+                    chk.ev.write();
+                    std::process::exit(2);
+                }
+                save_violation(&mut chk, "determinism", &sig, &msg, spec, json!({}));
+            }
+        }
+    }
+    chk.finish()
+}
+
+fn determinism_history(lane: &engine::Lane, k: usize, cold: bool) -> Result<Vec<String>, (String, String)> {
+    let mut labels = vec![];
+    let dir = lane.ws().join(format!("ind/sdk_{k}"));
+    let diag = lane.dir.join(format!("diag-c10-{k}.dot"));
+    let sdk_rel = format!("ind/sdk_{k}");
+    let sdk_name = format!("sdk_{k}");
+    let files = vec![dir.join("Cargo.toml"), dir.join("src/lib.rs"), diag.clone()];
+    let fp = || round::fingerprint(&files);
+    let hashes = |f: &Vec<(String, Option<(u64, u128)>)>| f.iter().map(|(n, x)| (n.clone(), x.map(|y| y.0))).collect::<Vec<_>>();
+    let _ = std::fs::remove_file(&diag);
+    let v = round::verdict_k(lane, k, k, false, &[], Some(&diag));
+    if !v.accepted() {
+        if v.panicked {
+            return Ok(vec!["skipped:not-accepted".into()]);
+        }
+        return Ok(vec!["skipped:not-accepted".into()]);
+    }
+    let f1 = fp();
+    if f1.iter().any(|(_, x)| x.is_none()) {
+        return Err(("missing-output".into(), format!("accepted but some outputs are missing: {f1:?}")));
+    }
+    // 2. run again: nothing changes, nothing is rewritten
+    std::thread::sleep(std::time::Duration::from_millis(20));
+    let v2 = round::verdict_k(lane, k, k, false, &[], Some(&diag));
+    let f2 = fp();
+    if !v2.accepted() {
+        return Err(("second-run-differs".into(), format!("the second run on unchanged inputs did not succeed: {}", v2.brief())));
+    }
+    if hashes(&f1) != hashes(&f2) {
+        return Err(("not-deterministic".into(), format!("two runs on unchanged inputs produced different bytes: {:?} vs {:?}", hashes(&f1), hashes(&f2))));
+    }
+    if f1[..2] != f2[..2] {
+        return Err(("rewritten-although-unchanged".into(), "re-running on unchanged inputs rewrote Cargo.toml or src/lib.rs (modification time changed)".to_string()));
+    }
+    labels.push("run:again-same-bytes-same-mtime".into());
+    // 3. --check: exit 0, touches nothing
+    let vc = round::verdict_k(lane, k, k, true, &[], None);
+    let f3 = fp();
+    if vc.code != Some(0) {
+        return Err(("check-fails-on-fresh-output".into(), format!("--check right after a successful generation: {}", vc.brief())));
+    }
+    if f3[..2] != f2[..2] {
+        return Err(("check-modified-files".into(), "--check modified the generated crate".to_string()));
+    }
+    labels.push("check:up-to-date".into());
+    // 4. fresh output, different thread counts
+    for threads in ["1", "2", "16"] {
+        lane.reset_crate(&sdk_rel, &sdk_name);
+        let _ = std::fs::remove_file(&diag);
+        let vt = round::verdict_k(lane, k, k, false, &[("RAYON_NUM_THREADS", threads)], Some(&diag));
+        let ft = fp();
+        if !vt.accepted() || hashes(&ft) != hashes(&f1) {
+            return Err((
+                "not-deterministic".into(),
+                format!("regenerating with RAYON_NUM_THREADS={threads} gave different output: accepted={} {:?} vs {:?}", vt.accepted(), hashes(&ft), hashes(&f1)),
+            ));
+        }
+        labels.push(format!("run:threads={threads}"));
+    }
+    // 5. perturb one byte, --check must notice and must not repair
+    let lib = dir.join("src/lib.rs");
+    let mut content = std::fs::read(&lib).map_err(|e| ("infra".to_string(), e.to_string()))?;
+    content.push(b' ');
+    std::fs::write(&lib, &content).map_err(|e| ("infra".to_string(), e.to_string()))?;
+    let fpert = fp();
+    let vc2 = round::verdict_k(lane, k, k, true, &[], None);
+    let fafter = fp();
+    if vc2.code == Some(0) {
+        return Err(("check-misses-stale-output".into(), "--check exits 0 although src/lib.rs differs from what would be generated".to_string()));
+    }
+    if fafter[..2] != fpert[..2] {
+        return Err(("check-modified-files".into(), "--check rewrote a stale file instead of only reporting it".to_string()));
+    }
+    labels.push("check:stale-detected".into());
+    let v5 = round::verdict_k(lane, k, k, false, &[], Some(&diag));
+    if !v5.accepted() || hashes(&fp()) != hashes(&f1) {
+        return Err(("not-deterministic".into(), "regenerating over a stale file did not restore the original bytes".to_string()));
+    }
+    // 6. cache independence (expensive: cold cache)
+    if cold {
+        let cold_home = lane.dir.join("home-cold");
+        let _ = std::fs::remove_dir_all(&cold_home);
+        let _ = std::fs::create_dir_all(&cold_home);
+        let h = cold_home.display().to_string();
+        lane.reset_crate(&sdk_rel, &sdk_name);
+        let vcold = round::verdict_k(lane, k, k, false, &[("HOME", &h)], Some(&diag));
+        let fc = fp();
+        let _ = std::fs::remove_dir_all(&cold_home);
+        if !vcold.accepted() || hashes(&fc) != hashes(&f1) {
+            return Err(("cache-dependent-output".into(), format!("a run with a cold documentation cache gave different output (accepted={})", vcold.accepted())));
+        }
+        labels.push("run:cold-cache".into());
+    }
+    Ok(labels)
 }
